@@ -6,7 +6,7 @@ mkdir -p tlogs
 run1() { id=$1; s=$(date +%s); /venv/bin/python harness/vcheck.py $id --tier thorough > tlogs/$id.log 2>&1; rc=$?; e=$(date +%s)
   echo "$id rc=$rc secs=$((e-s)) $(grep -E '^(VIOLATION|INFRA|KNOWN)' tlogs/$id.log | cut -c1-200 | tr '\n' '|')" >> thorough.summary; }
 i=0
-for id in C17 C05 C09 C12 C02 C07 C13 C10 C11 C20 C18 C15 C16 C06 C14 C04 C19 C08 C01 C03; do
+for id in ${IDS:-C17 C05 C09 C12 C02 C07 C13 C10 C11 C20 C18 C15 C16 C06 C14 C04 C19 C08 C01 C03}; do
   run1 $id &
   i=$((i+1)); [ $((i % L)) -eq 0 ] && wait
 done
